@@ -150,7 +150,9 @@ func (w *World) addContractFile(cf *ContractFile) {
 				keep, other = c, old
 			}
 			if !keep.HasFrame && other.HasFrame {
-				keep.HasFrame, keep.Frame = true, other.Frame
+				// the frame comes from a trusted declaration: callers rely on it, the body is not
+				// checked against it (reported as an assumption)
+				keep.HasFrame, keep.Frame, keep.FrameTrusted = true, other.Frame, true
 			}
 			w.Contracts[name] = keep
 			continue
